@@ -50,6 +50,12 @@ def main(argv=None):
             print(f"replay: instance {'holds' if hits else 'is no longer present'} on the current tree")
             return 0
         mod.check(rep, an, a.tier)
+        if a.tier == "thorough" and not os.environ.get("VERIF_NO_SWEEP"):
+            from .sweep import sweep
+            sw = sweep(prop, an, rep)
+            rep.extra = dict(getattr(rep, "extra", None) or {}, sensitivity_sweep=sw)
+            print(f"{prop} sensitivity sweep: {sw['mutants']} in-memory AST mutants of {sw['functions_mutated']} reached functions, "
+                  f"{sw['killed']} killed, {sw['survived']} survived, {sw['analysis_error']} analysis errors")
         return finish(rep, level=getattr(mod, "LEVEL", "other"), explanation=mod.EXPLANATION,
                       rule_text=getattr(mod, "RULE_TEXT", ""), trusted=getattr(mod, "TRUSTED", TRUSTED),
                       assumptions=getattr(mod, "ASSUMPTIONS", ASSUMPTIONS), extra=getattr(rep, "extra", None))
